@@ -392,6 +392,11 @@ def _run(scn, cfg, w, res):
             _second_session(scn, cfg, w, gw, kind, res, after_disk_fault=True)
             res.nontrivial_key = "C16:" + w.elog.digest()[:24]
             return
+    if cancel_phase == "exiting":
+        # the application cancelled the task while the exit path itself was running (only a minimised or hand-made
+        # scenario gets here): a second exception thrown into __aexit__ is outside the statement, nothing is demanded
+        res.probes["cancelled_while_exiting"] += 1
+        return
     # ---- leftovers ----
     loop.run_until_idle(0)
     left = [x for x in loop.pending_tasks()]
